@@ -1,6 +1,10 @@
 mod amo;
+mod gen;
 mod mapping;
+mod provider;
 mod rng;
+mod solve;
+mod universe;
 
 use rng::Rng;
 use std::io::Write;
@@ -24,7 +28,31 @@ pub fn guarded(f: impl FnOnce() -> Vec<String> + std::panic::UnwindSafe) -> Vec<
 thread_local! { pub static LAST_PANIC_LOC: std::cell::RefCell<String> = std::cell::RefCell::new(String::new()); }
 
 fn main() {
+    // The cases run on a worker thread (big stack); this thread is a watchdog: a case that makes no
+    // progress for `--case-timeout` seconds ends the process with exit code 86 (the orchestrator
+    // records the case as a hang and restarts after it).
     let args: Vec<String> = std::env::args().collect();
+    let timeout: u64 = arg(&args, "--case-timeout").map(|s| s.parse().unwrap()).unwrap_or(20);
+    let worker = std::thread::Builder::new().stack_size(256 << 20).spawn(real_main).unwrap();
+    let mut last = (u64::MAX, std::time::Instant::now());
+    loop {
+        if worker.is_finished() { break; }
+        let cur = PROGRESS.load(std::sync::atomic::Ordering::SeqCst);
+        if cur != last.0 { last = (cur, std::time::Instant::now()); }
+        else if last.1.elapsed().as_secs() >= timeout {
+            eprintln!("TIMEOUT case {cur}");
+            std::process::exit(86);
+        }
+        std::thread::sleep(std::time::Duration::from_millis(50));
+    }
+    if worker.join().is_err() { std::process::exit(87); }
+}
+
+pub static PROGRESS: std::sync::atomic::AtomicU64 = std::sync::atomic::AtomicU64::new(0);
+
+fn real_main() {
+    let args: Vec<String> = std::env::args().collect();
+    let start: usize = arg(&args, "--start").map(|s| s.parse().unwrap()).unwrap_or(0);
     let family = args.get(1).cloned().unwrap_or_default();
     let seed: u64 = arg(&args, "--seed").map(|s| s.parse().unwrap()).unwrap_or(1);
     let n: usize = arg(&args, "--cases").map(|s| s.parse().unwrap()).unwrap_or(100);
@@ -58,20 +86,28 @@ fn main() {
             None => match family.as_str() {
                 "mapping" => mapping::gen_case(&mut crng),
                 "amo" => amo::gen_case(&mut crng, i),
+                "solve" => { let k = *crng.pick(&[gen::Kind::General, gen::Kind::General, gen::Kind::Tight, gen::Kind::Tight, gen::Kind::Hints]); solve::gen_case(&mut crng, k) }
+                "soft" => solve::gen_case(&mut crng, gen::Kind::Soft),
+                "conflictfree" => solve::gen_case(&mut crng, gen::Kind::ConflictFree),
                 f => panic!("unknown family {f}"),
             },
         };
+        if i < start { continue; }
+        PROGRESS.store(i as u64, std::sync::atomic::Ordering::SeqCst);
+        writeln!(cases_f, "case {i} {family}").unwrap();
+        for l in &lines { writeln!(cases_f, "{l}").unwrap(); }
+        writeln!(cases_f, "end").unwrap();
+        cases_f.flush().unwrap();
         let l2 = lines.clone();
         let out = match family.as_str() {
             "mapping" => guarded(move || mapping::run_case(&l2)),
             "amo" => guarded(move || amo::run_case(&l2)),
+            "solve" | "soft" | "conflictfree" => guarded(move || solve::run_case(&l2)),
             f => panic!("unknown family {f}"),
         };
-        writeln!(cases_f, "case {i} {family}").unwrap();
-        for l in &lines { writeln!(cases_f, "{l}").unwrap(); }
-        writeln!(cases_f, "end").unwrap();
         writeln!(impl_f, "case {i} {family}").unwrap();
         for l in &out { writeln!(impl_f, "{l}").unwrap(); }
         writeln!(impl_f, "end").unwrap();
+        impl_f.flush().unwrap();
     }
 }
